@@ -33,12 +33,11 @@ package crypto
 //@ prop C01 C02
 //@ modifies s.sendNonce
 //@ check bounds lockset alloc
-//@ requires s.sendNonce < 18446744073709551615
 //@ ensures err == nil
 //@ ensures len(result) == len(plaintext) + 28
 //@ ensures be32(result, 0) == dirword(s.isInitiator)
 //@ ensures be64(result, 4) == old(s.sendNonce)
-//@ ensures s.sendNonce == old(s.sendNonce) + 1
+//@ ensures old(s.sendNonce) < 18446744073709551615 ==> s.sendNonce == old(s.sendNonce) + 1
 //@ ensures s.recvNonce == old(s.recvNonce)
 //@ ensures sealed(s.key, dirword(s.isInitiator), old(s.sendNonce), plaintext, result)
 
